@@ -390,9 +390,18 @@ def _run_metered(drv, arg, kw, budget_steps):
     return outcome, steps, peak
 
 
+BASELINE_STEP_CAP = 3_000_000  # an un-faulted seed of a few KiB needs a few thousand steps
+
+
+class SeedDoesNotTerminate(Exception):
+    pass
+
+
 def _baseline(seed):
     if seed["name"] not in _BASE:
-        outcome, steps, peak = _run_metered(seed["drv"], seed["raw"], seed["kw"], None)
+        outcome, steps, peak = _run_metered(seed["drv"], seed["raw"], seed["kw"], BASELINE_STEP_CAP)
+        if outcome == "steps":
+            raise SeedDoesNotTerminate(f"{seed['name']}: {steps} steps on the un-faulted seed")
         if outcome != "returned":
             raise AssertionError(f"harness: un-faulted seed {seed['name']} is not accepted: {outcome}")
         _BASE[seed["name"]] = (steps, peak)
@@ -403,7 +412,14 @@ def _execute(ctx, case, seed, data, subject, drv=None, kw=None, input_bytes=None
     ctx.transitions += 1
     ctx.states += 1
     ctx.nontrivial += 1
-    bsteps, bpeak = _baseline(seed) if seed is not None else (2000, 1 << 20)
+    try:
+        with ctx.watch(case, 600):
+            bsteps, bpeak = _baseline(seed) if seed is not None else (2000, 1 << 20)
+    except SeedDoesNotTerminate as e:
+        ctx.violation(case, {"subject": subject.split(".")[0] + ".valid-seed", "kind": "step-budget-exceeded"}, {"what": str(e)})
+        return False
+    if seed is not None and seed["name"] not in _BASE:
+        return False  # the watchdog fired while measuring the baseline (reported by ctx.watch)
     n_in = input_bytes if input_bytes is not None else len(data)
     sectors = n_in // 512 + 6 * (A // 512) + 64
     budget = 20 * bsteps + 1024 * sectors + 20000
